@@ -125,10 +125,13 @@ ASSUME_PROTO = [
 ]
 
 
-def proto_plan(prop, level, rule, n_quick, n_thorough, procs=16):
+def proto_plan(prop, level, rule, n_quick, n_thorough, procs=16, other_variants=()):
     def plan(tier, seed, known):
         n = n_thorough if tier == "thorough" else n_quick
         jobs = split_jobs("e2", prop, seed, n, procs, 1, "default", known, tier, rayons=(1, 1, 1, 2))
+        # the same scenarios under other build configurations (other tree backend / key loader), smaller budget
+        for k, v in enumerate(other_variants):
+            jobs += split_jobs("e2", prop, seed, max(8, n // 8), 2, 1, v, known, tier, rayons=(1, 2), base=20_000_000 * (k + 1))
         return {
             "jobs": jobs,
             "level": level,
@@ -147,11 +150,11 @@ RULE_PROTO = ("one evaluation = one seeded scenario on 1-3 RLN nodes: membership
               "points, recoveries; every step is an explicit event of the trace; non-trivial = at least one proof was generated or one "
               "proving request rejected or one recovery evaluated; distinct = distinct trace digest")
 
-PLANS["C01"] = proto_plan("C01", "exploration", RULE_PROTO + "; C01: honest traffic, verifier at the same log position / behind / ahead with the root in its window, final heal + fresh message accepted everywhere", 160, 3000)
-PLANS["C02"] = proto_plan("C02", "fault_enumeration", RULE_PROTO + "; C02: per accepted message the alteration menu (5 public values x {0,1,+1,p-1,random,other message's}, sampled proof bits, signal edits, declared length) is enumerated x 3 entry points, plus verifier states {current, moved on in window, out of window, never had it, empty set, set without the root}", 100, 1500)
+PLANS["C01"] = proto_plan("C01", "exploration", RULE_PROTO + "; C01: honest traffic, verifier at the same log position / behind / ahead with the root in its window, final heal + fresh message accepted everywhere", 160, 3000, other_variants=("nodefault", "arkzkey"))
+PLANS["C02"] = proto_plan("C02", "fault_enumeration", RULE_PROTO + "; C02: per accepted message the alteration menu (5 public values x {0,1,+1,p-1,random,other message's}, sampled proof bits, signal edits, declared length) is enumerated x 3 entry points, plus verifier states {current, moved on in window, out of window, never had it, empty set, set without the root}", 100, 1500, other_variants=("nodefault", "full"))
 PLANS["C03"] = proto_plan("C03", "exploration", RULE_PROTO + "; C03: double-signalling publishers (3 real messages per run: same slot twice, other epoch or id), duplicated deliveries, 40 synthetic share pairs per run with secret/x/ext in {0,1,p-1,random}, x1 = x2 with equal and different y", 120, 2000)
-PLANS["C12"] = proto_plan("C12", "exploration", RULE_PROTO + "; C12: valid and malformed proving requests (id = limit, id > limit, id or limit beyond 16 bits, position outside the tree, wrong path length, non-binary direction values, torn request, reader/writer errors) through all four entry points; Ok => verifies is evaluated on every proving step", 200, 3000)
-PLANS["C13"] = proto_plan("C13", "fault_enumeration", RULE_PROTO + "; C13: one accepted message, then truncation lengths (all in thorough, boundaries + sample in quick), declared signal lengths in a boundary set, random bytes, malformed root sets, v + k*p aliases of each public value (k = 1..5) at verify / verify_rln_proof / verify_with_roots / recover_id_secret (both arguments)", 100, 1500)
+PLANS["C12"] = proto_plan("C12", "exploration", RULE_PROTO + "; C12: valid and malformed proving requests (id = limit, id > limit, id or limit beyond 16 bits, position outside the tree, wrong path length, non-binary direction values, torn request, reader/writer errors) through all four entry points; Ok => verifies is evaluated on every proving step", 200, 3000, other_variants=("nodefault",))
+PLANS["C13"] = proto_plan("C13", "fault_enumeration", RULE_PROTO + "; C13: one accepted message, then truncation lengths (all in thorough, boundaries + sample in quick), declared signal lengths in a boundary set, random bytes, malformed root sets, v + k*p aliases of each public value (k = 1..5) at verify / verify_rln_proof / verify_with_roots / recover_id_secret (both arguments)", 100, 1500, other_variants=("nodefault", "arkzkey"))
 
 
 def c11_plan(tier, seed, known):
